@@ -63,6 +63,9 @@ def compare_axioms(F, reference, what, case):
     return True
 
 
+_BOUNDED = {'on': False}      # large instances: satisfiability by a node-bounded search, None when undecided
+
+
 def satisfiable(F):
     """True/False (tt up to 22 variables, DPLL beyond; OPB beyond 22 -> None)."""
     from cnfgen.formula.baseopb import BaseOPB
@@ -72,6 +75,11 @@ def satisfiable(F):
     cls = as_clauses(F)
     if cls is None:
         return None
+    if _BOUNDED['on']:
+        try:
+            return sat.solve(n, cls, max_nodes=3000) is not None
+        except sat.Budget:
+            return None         # undecided within the node budget: only the axioms are compared
     return sat.is_sat(n, cls)
 
 
@@ -116,12 +124,28 @@ def op_reference(n, adj, total, smart, plant, knuth, X):
 
 
 def planted_order_exists(n, adj):
-    """Is there a linear order where every vertex but n has a smaller neighbour?"""
-    for order in itertools.permutations(range(1, n + 1)):
-        pos = {v: i for i, v in enumerate(order)}
-        if all(v == n or any(pos[u] < pos[v] for u in adj[v]) for v in range(1, n + 1)):
-            return True
-    return False
+    """Is there a linear order where every vertex but n has a smaller neighbour?
+    (the minimum of such an order has no smaller neighbour, so it is n, and following smaller neighbours leads
+    every vertex down to n: such an order exists exactly when every vertex is connected to n; for n<=7 the
+    permutations are also enumerated and the two answers must agree)"""
+    seen, todo = {n}, [n]
+    while todo:
+        v = todo.pop()
+        for u in adj[v]:
+            if u not in seen:
+                seen.add(u)
+                todo.append(u)
+    connected = len(seen) == n
+    if n <= 7:
+        brute = False
+        for order in itertools.permutations(range(1, n + 1)):
+            pos = {v: i for i, v in enumerate(order)}
+            if all(v == n or any(pos[u] < pos[v] for u in adj[v]) for v in range(1, n + 1)):
+                brute = True
+                break
+        if brute != connected:
+            raise RuntimeError("harness: planted_order_exists disagrees with its brute force on {}".format(adj))
+    return connected
 
 
 def run_op(case):
@@ -157,7 +181,7 @@ def run_op(case):
         return Outcome(labels=labels + ['degenerate'], nontrivial=False)
     s = satisfiable(F)
     if s is None:
-        return Outcome(labels=labels + ['too-large'], nontrivial=False)
+        return Outcome(labels=labels + ['too-large'], nontrivial=bool(compared) and _BOUNDED['on'])
     if not plant:
         if s:
             raise Violation("OP {}: documented contradiction is satisfiable".format(case))
@@ -713,6 +737,59 @@ SUBCHECKS = [
              required_labels=['has-triples', 'counted']),
 ]
 
+
+# ---------------------------------------------------------------------------
+# larger instances: the axioms by name (no truth table needed), satisfiability where a bounded search decides it
+
+def run_large(case):
+    _BOUNDED['on'] = True
+    try:
+        out = {'op': run_op, 'peb': run_peb, 'stone': run_stone}[case['family']](case['case'])
+    finally:
+        _BOUNDED['on'] = False
+    return Outcome(labels=[case['family'], 'large'] + list(out.labels or []), nontrivial=out.nontrivial, rejected=out.rejected)
+
+
+@st.composite
+def strat_large(draw):
+    fam = draw(st.sampled_from(['op', 'op', 'peb', 'stone']))
+    kinds = ('cnfgen', 'networkx', 'networkx-rev', 'cnfgen-grown')
+    if fam == 'op':
+        total, smart, plant, knuth = draw(st.sampled_from(list(_op_variants())))
+        if draw(st.booleans()):
+            c = {'n': draw(st.integers(7, 13)), 'edges': None}
+        else:
+            g = draw(gg.simple_graphs(nmin=8, nmax=16, max_edges=50, kinds=kinds))
+            c = {'n': g['n'], 'edges': g['edges'], 'as': g['as']}
+        c.update(total=total, smart=smart, plant=plant, knuth=knuth, cls=draw(st.sampled_from(['CNF', 'CNF', 'OPB'])))
+        return {'family': fam, 'case': c}
+    if fam == 'peb':
+        g = draw(gg.dags(nmin=13, nmax=60, max_edges=150))
+        return {'family': fam, 'case': {'graph': g, 'cls': draw(st.sampled_from(['CNF', 'OPB']))}}
+    g = draw(gg.dags(nmin=6, nmax=12, max_edges=16))
+    # at most two predecessors per vertex (the induction axioms are stones^(predecessors+1) many)
+    cnt, keep = {}, []
+    for u, v in g['edges']:
+        if cnt.get(v, 0) < 2:
+            keep.append([u, v])
+            cnt[v] = cnt.get(v, 0) + 1
+    g = dict(g, edges=keep)
+    if draw(st.booleans()):
+        return {'family': fam, 'case': {'graph': g, 'stones': draw(st.integers(3, 7)), 'B': None, 'cls': 'CNF'}}
+    R = draw(st.integers(3, 8))
+    b = draw(gg.bipartite_graphs(Lmin=g['n'], Lmax=g['n'], Rmin=R, Rmax=R, max_edges=4 * g['n'], kinds=('cnfgen', 'networkx')))
+    cntb, keepb = {}, []
+    for u, j in b['edges']:
+        if cntb.get(u, 0) < 4:
+            keepb.append([u, j])
+            cntb[u] = cntb.get(u, 0) + 1
+    return {'family': fam, 'case': {'graph': g, 'stones': R, 'B': dict(b, edges=keepb), 'cls': 'CNF'}}
+
+
+SUBCHECKS.append(
+    SubCheck('large', run_large, strategy=strat_large, quick=200, thorough=8000,
+             rule="OrderingPrinciple N in 7..13 and GraphOrderingPrinciple on graphs with 8..16 vertices (all variants, all object kinds), PebblingFormula on DAGs with 13..60 vertices, Stone/SparseStone formulas on DAGs with 6..12 vertices and 3..8 stones: oracle: clause set == reference axioms by name (complete, no sampling); contradiction/planted satisfiability confirmed where a 3000-node DPLL decides it; non-trivial: as in the small sub-checks",
+             required_labels=['op', 'peb', 'stone', 'axioms-compared']))
 
 # ---------------------------------------------------------------------------
 # the same cases after other work in the same process
